@@ -111,6 +111,8 @@ struct HostState {
     upper: bool,
     /// keyIncarnationId of the status document (an optional field)
     status_incarnation: Option<u32>,
+    /// key ids for which an attest request arrived in this run, in order
+    attested_guids: Vec<String>,
 }
 
 fn guid_of(tag: u64, i: usize) -> String {
@@ -180,6 +182,7 @@ fn start_host(port: u16, listener: usize, st: Arc<Mutex<HostState>>) -> MockHost
                 _ => {}
             }
             s.attests += 1;
+            s.attested_guids.push(guid.clone());
             let idx = s.issued.iter().position(|k| k.0 == guid);
             match idx {
                 None => {
@@ -688,7 +691,32 @@ fn main() {
                 let tag = 900_000_000 + j as u64 * 16 + si as u64;
                 prepare(&slot, sc, f, tag);
                 let case = json!({"scenario": format!("{:?}", sc), "host_fault": format!("{:?}", f), "storage_fault_at": format!("{kname}#{k} fails with ENOSPC")});
-                let _ = run_child_inj(&slot, Some(format!("{kname}:error=ENOSPC:when={k}")), None);
+                let ftrace = format!("{}-fault.trace", slot.key_dir);
+                let _ = std::fs::remove_file(&ftrace);
+                let _ = run_child_inj(&slot, Some(format!("{kname}:error=ENOSPC:when={k}")), Some(&ftrace));
+                // "never attests a key it has not first stored and read back identically": when the call that failed was a
+                // read-only open of a key file, an attest for that key must be preceded by a successful read-only open of it
+                // (weaker, order-free form: there must be one at all after the failed one in this run)
+                if let Ok(tr) = std::fs::read_to_string(&ftrace) {
+                    let mut failed: Option<(usize, String)> = None;
+                    let lines: Vec<&str> = tr.lines().collect();
+                    for (li, l) in lines.iter().enumerate() {
+                        if l.contains("(INJECTED)") && l.contains(".key\"") && l.contains("O_RDONLY") {
+                            if let Some(path) = l.split('"').nth(1) {
+                                failed = Some((li, path.to_string()));
+                            }
+                        }
+                    }
+                    if let Some((li, path)) = failed {
+                        let guid = path.rsplit('/').next().unwrap_or("").trim_end_matches(".key").to_string();
+                        let attested = slot.st.lock().unwrap().attested_guids.iter().any(|g| g.eq_ignore_ascii_case(&guid));
+                        let reread = lines[li + 1..].iter().any(|l| l.contains(&format!("\"{path}\"")) && l.contains("O_RDONLY") && !l.contains("= -1") && !l.contains("<unfinished"));
+                        if attested && !reread {
+                            out.lock().unwrap().push((format!("attested-without-successful-read-back:{:?}:{:?}:storage-fault", sc, f), format!("{kname}#{k} was the read-only open of {path} and failed; the agent never opened that file again in this run, yet the host received an attest request for {guid}"), case.clone()));
+                        }
+                    }
+                }
+                let _ = std::fs::remove_file(&ftrace);
                 for (sig, what) in inspect_store(&slot) {
                     out.lock().unwrap().push((format!("{sig}:{:?}:{:?}:storage-fault", sc, f), format!("after {kname}#{k} failed with ENOSPC: {what}"), case.clone()));
                 }
@@ -745,7 +773,7 @@ fn main() {
         res.cov("exhaustive", hit == total);
     }
     res.cov("window_syscalls_per_combination", json!(windows.iter().map(|w| json!({"scenario": format!("{:?}", w.0), "fault": format!("{:?}", w.1), "first": w.2, "last": w.3})).collect::<Vec<_>>()));
-    res.cov("rule", format!("for each of {} (scenario, host fault) combinations: the fault-free run is traced twice with strace (syscalls {SYSCALLS}); then one run per kill point = every invocation (by syscall name and per-syscall index, as strace counts) from the first connect to the host up to process exit (+1..3), killed with SIGKILL on entry; after each kill: no torn file under a final key name, the host's latched key is complete in the store, the mock host never saw an attest for a key that was not complete on disk; then a fresh process on the same store must reach an accepted signed request, without a new acquisition when the latched key was in the store; then (storage faults) one run per file-system call of the window in which that call fails once with ENOSPC and the agent keeps running, with the same oracles; distinct = kill points at which the process was actually killed", combos.len()));
+    res.cov("rule", format!("for each of {} (scenario, host fault) combinations: the fault-free run is traced twice with strace (syscalls {SYSCALLS}); then one run per kill point = every invocation (by syscall name and per-syscall index, as strace counts) from the first connect to the host up to process exit (+1..3), killed with SIGKILL on entry; after each kill: no torn file under a final key name, the host's latched key is complete in the store, the mock host never saw an attest for a key that was not complete on disk; then a fresh process on the same store must reach an accepted signed request, without a new acquisition when the latched key was in the store; then (storage faults) one run per file-system call of the window in which that call fails once with ENOSPC and the agent keeps running, with the same oracles, and: when the failed call was the read-only open of a key file, no attest for that key unless the file was opened successfully again; distinct = kill points at which the process was actually killed", combos.len()));
     res.sample(json!({"scenario": "FreshLatch", "host_fault": "None", "window": windows.first().map(|w| w.4.iter().skip(w.2.saturating_sub(1) as usize).take(12).cloned().collect::<Vec<_>>())}));
     res.assume("process death = SIGKILL on syscall entry; power loss (page cache, metadata ordering) is not in the statement");
     res.assume("single-threaded subject (current-thread runtime, paused clock): the syscall sequence of the window is deterministic (compared between two fault-free runs)");
